@@ -40,6 +40,10 @@ class Raised:
         def private(qual):
             last = qual.split(".")[-1].split("[")[0]
             return last.startswith("_") and not last.startswith("__")
+        if self.cat() == "text of an integer of unbounded size" and self.chain:
+            # F-18 is a finding about an entry point (a keyword's message on an instance holding a huge integer): whether the text
+            # is put together in the keyword function or in a shared helper it calls is the same finding
+            return self.chain[0]
         if not private(q):
             return q
         for c in reversed([c for c in self.chain if c != q]):
